@@ -109,6 +109,35 @@ def check(ck):
                 [unparse(x) for x in ca.args] == ["field_definition.arguments", "field_nodes[0]", "execution_context.variable_values", "execution_context.context"] and \
                 arg_text(ca, None, "coercer") == "field_definition.arguments_coercer" and unparse(a[2]) == "execution_context.context" and unparse(a[3]) == "info"
             ck.ob("create_source_event_stream: the generator gets (root value, spec-coerced arguments, context, info)", ok, c, sub[0], construct="source:operands")
+        rs = cv.raises()
+        nd = [r for r in rs if "is not defined" in unparse(r.exc)]
+        ns = [r for r in rs if "source event stream" in unparse(r.exc)]
+        ck.ob("create_source_event_stream: an unknown subscription field is an error (the catch-all renders it), not a call",
+              len(nd) == 1 and ("field_definition", "F") in cv.conditions(nd[0]) and sub and ("field_definition", "T") in cv.conditions(sub[0]), c, nd[0] if nd else c.node, construct="source:unknown-field")
+        ck.ob("create_source_event_stream: a field without a registered generator is an error, not a call",
+              len(ns) == 1 and ("field_definition.subscribe", "F") in cv.conditions(ns[0]) and sub and ("field_definition.subscribe", "T") in cv.conditions(sub[0]), c, ns[0] if ns else c.node,
+              construct="source:no-generator")
+        st = {unparse(n.targets[0]): unparse(n.value) for n in walk_no_nested(c.node) if isinstance(n, ast.Assign) and isinstance(n.targets[0], ast.Name)}
+        ok = st.get("response_name") == "list(fields.keys())[0]" and st.get("field_nodes") == "fields[response_name]" and st.get("field_name") == "field_nodes[0].name.value" and \
+            st.get("field_definition") == f"get_field_definition({c.positional_params[0]}, operation_root_type, field_name)"
+        ck.ob("create_source_event_stream: the source is the first collected root field of the operation's root type", ok, c, c.node, construct="source:root-field", detail=str({k: st.get(k) for k in ("response_name", "field_nodes", "field_name", "field_definition")}))
+        cf = cv.maybe_call("collect_fields")
+        ck.ob("create_source_event_stream: root fields are collected from the selected operation's selection set",
+              cf is not None and [unparse(a) for a in cf.args] == ["execution_context", "operation_root_type", "execution_context.operation.selection_set"] and cv.is_awaited(cf), c,
+              cf or c.node, construct="source:collect")
+        bi = cv.maybe_call("build_resolve_info")
+        ck.ob("create_source_event_stream: the generator's info describes that field at its response path",
+              bi is not None and [unparse(a) for a in bi.args] == ["execution_context", "field_definition", "field_nodes", "operation_root_type", "Path(None, response_name)"], c, bi or c.node,
+              construct="source:info")
+        sb = repo.func("tartiflette/subscription/subscription.py", "Subscription.bake")
+        sv2 = FuncView(sb)
+        rs2 = sv2.raises()
+        nsf = [r for r in rs2 if "NotSubscriptionField" in unparse(r.exc)]
+        mi = [r for r in rs2 if "MissingImplementation" in unparse(r.exc)]
+        asg = [n for n in walk_no_nested(sb.node) if isinstance(n, ast.Assign) and unparse(n.targets[0]) == "field.subscribe"]
+        ok = len(nsf) == 1 and ("parent_type_name == schema.subscription_operation_name", "F") in sv2.conditions(nsf[0]) and len(asg) == 1 and \
+            ("parent_type_name == schema.subscription_operation_name", "T") in sv2.conditions(asg[0]) and len(mi) == 1 and ("self._implementation", "F") in sv2.conditions(mi[0])
+        ck.ob("Subscription.bake: a generator is attached only to a field of the subscription root, and only when one was given", ok, sb, asg[0] if asg else sb.node, construct="source:bake-guards")
         rb = [r for r in cv.returns() if cv.guarded(r, lambda t: t == "errors", "T")]
         ck.ob("create_source_event_stream: with errors it returns one errors-only response (a dict)", len(rb) == 1 and unparse(strip_await(rb[0].value)) == "response_builder(errors=errors)",
               c, rb[0] if rb else c.node, construct="source:errors")
